@@ -1084,6 +1084,44 @@ func (c *cenv) call(e *ast.CallExpr) Val {
 				return bval("(>= (root (idat " + x.T + ")) " + c.allocOld + ")")
 			}
 			return c.fail("fresh() of non-reference value")
+		case "callfn", "callfn1":
+			// callfn(f, a...) = result 0 (callfn1: result 1) of the pure call f(a...)
+			fval := c.fnValue(c.expr(e.Args[0]))
+			sig, ok := types.Unalias(tOrNil(fval.Typ)).Underlying().(*types.Signature)
+			if !ok {
+				return c.fail("callfn: first argument is not a function value")
+			}
+			var as []Val
+			for i, a := range e.Args[1:] {
+				av := c.expr(a)
+				if i < sig.Params().Len() {
+					pk, pw, _ := kindOf(sig.Params().At(i).Type())
+					if av.K == KBV && pk == KBV && av.W != pw {
+						av = c.resize(av, Val{K: KBV, W: pw, Typ: sig.Params().At(i).Type()})
+					}
+				}
+				as = append(as, av)
+			}
+			idx := 0
+			if id.Name == "callfn1" {
+				idx = 1
+			}
+			v, ok := fv.pureDyn(nil, fval, sig, as, idx)
+			if !ok {
+				return c.fail("callfn: unsupported signature")
+			}
+			return v
+		case "same":
+			// same(a, b): identical values (for floats: same bits, unlike ==)
+			a, b := c.expr(e.Args[0]), c.expr(e.Args[1])
+			a, b = c.unify(a, b)
+			if a.K == KStruct || a.K == KTuple {
+				return c.fail("same() of aggregate")
+			}
+			return bval(eq(a.T, b.T))
+		case "nonnilfn":
+			fval := c.fnValue(c.expr(e.Args[0]))
+			return bval(not(eq(fval.T, "LNil")))
 		case "freshit":
 			// allocated since the loop header snapshot
 			if c.it0 == nil {
@@ -1337,4 +1375,18 @@ func (c *cenv) knownTag(x Val) int {
 		}
 	}
 	return 0
+}
+
+// fnValue: a captured function variable is a pointer to its cell; contracts
+// may name either the cell or the value.
+func (c *cenv) fnValue(v Val) Val {
+	if v.Typ == nil {
+		return v
+	}
+	if pt, ok := types.Unalias(v.Typ).Underlying().(*types.Pointer); ok {
+		if _, isSig := types.Unalias(pt.Elem()).Underlying().(*types.Signature); isSig {
+			return c.fv.load(c.st, v.T, pt.Elem())
+		}
+	}
+	return v
 }
